@@ -35,6 +35,8 @@ func Run(sc *Script) []trace.Event {
 	acks := kafka.RequireOne
 	if !cfg.Acked {
 		acks = kafka.RequireNone
+	} else if cfg.RequireAll {
+		acks = kafka.RequireAll
 	}
 	w := &kafka.Writer{
 		Addr:            kafka.TCP("b1:9092"),
